@@ -2,6 +2,8 @@ package main
 
 import (
 	"fmt"
+	"go/token"
+	"go/types"
 
 	"golang.org/x/tools/go/ssa"
 )
@@ -200,4 +202,116 @@ func c18OneStream(p *Program, r *Report, sp *ssa.Package) {
 			"standard output has a buffered handle (made at "+where+") and the process can exit here without a Flush: the tail of the script's output is lost")
 	}
 	r.Floor("C18.R5", len(writes), 2)
+}
+
+// C18.R6 — the command does not die on the way from the library's verdict to its exit code: package main has no recover, so an
+// out-of-range index or slice in it ends the process with Go's status 2 and a stack trace whatever vm.Execute returned. Every
+// index and slice expression of package main is dominated by a bound test on the same expressions (upper bound) and cannot be
+// negative (a constant, a loop index, or an expression tested against 0 / 1 on the path).
+// R7 — the script's arguments are not rebuilt inside os.Args: `args` is a sub-slice of os.Args, and an append into os.Args[:k]
+// shifts the elements the script is about to read; package main never stores to os.Args.
+func c18NoPanicNoArgsRewrite(p *Program, r *Report, sp *ssa.Package) {
+	n := 0
+	for _, fn := range SrcFuncs(sp) {
+		fname := funcName(fn)
+		cnt := 0
+		for _, b := range fn.Blocks {
+			for _, in := range b.Instrs {
+				site := p.Pos(instrPos(in))
+				switch x := in.(type) {
+				case *ssa.IndexAddr:
+					if _, isArr := derefType(x.X.Type()).Underlying().(*types.Array); isArr {
+						continue
+					}
+					n++
+					cnt++
+					inst := fmt.Sprintf("%s|index #%d within bounds", fname, cnt)
+					if isRangeIndex(x.Index, x.X) {
+						r.OK("C18.R6", inst, site, "range index over the same slice")
+						continue
+					}
+					if c, ok := x.Index.(*ssa.Const); ok {
+						if ln, ok := literalLen(x.X); ok && c.Int64() >= 0 && c.Int64() < ln {
+							r.OK("C18.R6", inst, site, "constant index into a literal")
+							continue
+						}
+					}
+					up, why := upperGuard(b, x.X, x.Index, true)
+					low := nonNegativeOnPath(b, x.Index)
+					r.Check(up && low, "C18.R6", inst, site, "index tested against the length ("+why+") and not negative",
+						"an index of package main is not dominated by a test of both of its bounds: out of range it ends the process with a Go panic (status 2 and a stack trace) whatever the library returned for the script")
+				case *ssa.Store:
+					if u, ok := x.Addr.(*ssa.Global); ok && u.Pkg != nil && u.Pkg.Pkg.Path() == "os" && u.Name() == "Args" {
+						r.Fail("C18.R7", fname+"|store to os.Args", site, "package main rewrites os.Args: the script's arguments are a sub-slice of it, so an append into os.Args[:k] shifts the very elements the script is about to read (the script sees its second argument twice)")
+					}
+				}
+			}
+		}
+	}
+	r.Note("C18.R6 index expressions of package main", n)
+	if n == 0 {
+		r.OK("C18.R6", "main|no index expression", "anko.go", "package main contains no index or slice-element expression on a slice (checked over every function)")
+	}
+	r.OK("C18.R7", "main|os.Args left alone", "anko.go", "no store to os.Args in package main (checked over every function)")
+}
+
+// nonNegativeOnPath: idx is a constant >= 0, a len, a loop index starting at a non-negative constant and only incremented,
+// or `e - k` with `e >= k` (or `e > k-1`) tested on the path to b.
+func nonNegativeOnPath(b *ssa.BasicBlock, idx ssa.Value) bool {
+	switch x := idx.(type) {
+	case *ssa.Const:
+		return x.Int64() >= 0
+	case *ssa.Call:
+		if bi, ok := x.Call.Value.(*ssa.Builtin); ok && (bi.Name() == "len" || bi.Name() == "cap") {
+			return true
+		}
+	case *ssa.Phi:
+		for _, e := range x.Edges {
+			if c, ok := e.(*ssa.Const); ok && c.Int64() >= 0 {
+				continue
+			}
+			if bo, ok := e.(*ssa.BinOp); ok && bo.Op == token.ADD && bo.X == ssa.Value(x) {
+				if c, ok := bo.Y.(*ssa.Const); ok && c.Int64() >= 0 {
+					continue
+				}
+			}
+			return false
+		}
+		return true
+	case *ssa.BinOp:
+		if x.Op == token.ADD {
+			return nonNegativeOnPath(b, x.X) && nonNegativeOnPath(b, x.Y)
+		}
+		if x.Op == token.SUB {
+			k, ok := x.Y.(*ssa.Const)
+			if !ok {
+				return false
+			}
+			// a test e >= k / e > k-1 (true edge) or e < k / e <= k-1 (false edge) dominating b
+			for d := b; d != nil && d.Idom() != nil; d = d.Idom() {
+				id := d.Idom()
+				iff, ok := id.Instrs[len(id.Instrs)-1].(*ssa.If)
+				if !ok {
+					continue
+				}
+				bo, ok := iff.Cond.(*ssa.BinOp)
+				if !ok || bo.X != x.X {
+					continue
+				}
+				c, ok := bo.Y.(*ssa.Const)
+				if !ok {
+					continue
+				}
+				onTrue, onFalse := edgeOnly(id, 0, d), edgeOnly(id, 1, d)
+				switch {
+				case bo.Op == token.GEQ && onTrue && c.Int64() >= k.Int64(),
+					bo.Op == token.GTR && onTrue && c.Int64() >= k.Int64()-1,
+					bo.Op == token.LSS && onFalse && c.Int64() >= k.Int64(),
+					bo.Op == token.LEQ && onFalse && c.Int64() >= k.Int64()-1:
+					return true
+				}
+			}
+		}
+	}
+	return false
 }
